@@ -41,11 +41,12 @@ const (
 	DGarbageBitmap // Arg% of the 'V' values replaced by garbage (wrong cookie)
 	DEmptyBitmap   // Arg% of the 'V' values replaced by an empty value
 	DTruncBitmap   // Arg% of the 'V' values truncated to half
+	DHugeGarbage   // one 'V' value replaced by > 64 KiB of junk (wrong cookie)
 	nDamage
 )
 
 var damageName = []string{"none", "missing-path", "zero-bytes", "empty-db", "other-bucket", "del-bucket", "del-schema", "empty-schema",
-	"trunc-schema", "flip-schema", "garbage-schema", "del-counter", "short-counter", "long-counter", "garbage-bitmap", "empty-bitmap", "trunc-bitmap"}
+	"trunc-schema", "flip-schema", "garbage-schema", "del-counter", "short-counter", "long-counter", "garbage-bitmap", "empty-bitmap", "trunc-bitmap", "huge-garbage-bitmap"}
 
 type Damage struct {
 	Kind int
@@ -150,6 +151,17 @@ func apply(dir string, rows []model.Row, c *Case) (path string, ex expect, err e
 			case DLongCounter:
 				s := append([]byte(nil), b.Get([]byte("I"))...)
 				return b.Put([]byte("I"), append(s, make([]byte, dm.Arg%4+1)...))
+			case DHugeGarbage:
+				cur := b.Cursor()
+				var keys [][]byte
+				for k, _ := cur.Seek([]byte("V")); k != nil && k[0] == 'V'; k, _ = cur.Next() {
+					keys = append(keys, append([]byte(nil), k...))
+				}
+				if len(keys) > 0 {
+					junk := bytes.Repeat([]byte{0xde, 0xad, 0xbe, 0xef, 7, 7, 7, byte(dm.Arg)}, 9000+dm.Arg%4000)
+					return b.Put(keys[dm.Arg%len(keys)], junk)
+				}
+				return nil
 			case DGarbageBitmap, DEmptyBitmap, DTruncBitmap:
 				var keys [][]byte
 				cur := b.Cursor()
@@ -289,11 +301,42 @@ func oracle(c *Case) error {
 		}
 		return idx, nil
 	}
+	d0 := model.NewData(rows)
 	closeIt := func(label string, idx *updog.Index) error {
-		if err := fix.Safe(idx.Close); err != nil {
-			if fix.IsPanic(err) {
-				return fmt.Errorf("%s: Close: %v", label, err)
+		// an index that opened is used before it is closed: one lookup per
+		// (column,value) of the original data.  What a damaged file answers is
+		// not specified, but it must not panic, and Close must still return and
+		// release the file.
+		n := 0
+		queryable := !strings.Contains(label, "second Close") // never touch an index that is already closed
+
+		for _, dm := range c.Damages {
+			// truncated or bit-flipped payloads are decoded lazily by the bitmap
+			// library and reading them can fault the whole process (outside
+			// what C15 states); only clearly undecodable payloads are queried
+			if dm.Kind != DGarbageBitmap && dm.Kind != DEmptyBitmap && dm.Kind != DHugeGarbage {
+				queryable = false
 			}
+		}
+		for _, col := range d0.Columns() {
+			if !queryable {
+				break
+			}
+			for _, v := range d0.Values(col) {
+				if n++; n > 60 {
+					break
+				}
+				if _, err := fix.Exec(idx, fix.NewQuery(model.Eq(col, v), nil)); fix.IsPanic(err) && len(c.Damages) == 0 {
+					return fmt.Errorf("%s: query on the opened index: %v", label, err)
+				}
+			}
+		}
+		cerr, hung, _ := fix.Watchdog(20*time.Second, []string{"updog.(*Index).Close"}, func() error { return idx.Close() })
+		if hung != "" {
+			return fmt.Errorf("%s: Close does not return after the index was queried:\n%s", label, hung)
+		}
+		if fix.IsPanic(cerr) {
+			return fmt.Errorf("%s: Close: %v", label, cerr)
 		}
 		return nil
 	}
@@ -316,7 +359,12 @@ func oracle(c *Case) error {
 			return err
 		}
 		if idx2 != nil {
-			closeIt("close 2", idx2)
+			if err := closeIt("close 2", idx2); err != nil {
+				return err
+			}
+			if err := released(path); err != nil {
+				return fmt.Errorf("after the second handle was queried and closed: %v", err)
+			}
 		}
 	case HOpenCloseCloseOpen:
 		if idx != nil {
@@ -368,7 +416,9 @@ func oracle(c *Case) error {
 		}
 	case HOpenBolt:
 		if idx != nil {
-			closeIt("close", idx)
+			if err := closeIt("close", idx); err != nil {
+				return err
+			}
 		}
 		if !missing {
 			if err := released(path); err != nil {
